@@ -271,6 +271,22 @@ class PosSim:
             if t[1] == -1:
                 return self.last_node()
             return None
+        if t[0] == 'adv' and t[1] == 1 and isinstance(t[2], tuple) and t[2][:1] != ('q',):
+            # std::next(it) of a resolved node: the following node, or the partition when it is the last used one
+            base = self.resolve_iter(t[2])
+            if isinstance(base, Node):
+                i = self.idx(base) + 1
+                if i < len(self.items):
+                    nx = self.items[i]
+                    if isinstance(nx, Mark):
+                        return 'P'
+                    if isinstance(nx, Node):
+                        return nx
+                    if nx.nonempty:
+                        return self.name_first(i, 'next@%d' % self.epoch)
+                elif i == len(self.items):
+                    return 'END'
+            return None
         # stored back-pointer into the order list (RI: it denotes the element's own node while the element is bound)
         if is_ld(t) and t[1] == 0 and t[2][0] == 'fld' and ro.backptrs.get(t[2][2]) == 'order':
             return self.ensure(L.elem_entity(t[2][1]))
@@ -370,7 +386,52 @@ class PosSim:
             if self.list_epoch is not None:
                 self.list_epoch += 1
 
+    def _do_move_range(self, e):
+        """splice(dest, list, first, last): the nodes [first, last) keep their order and go in front of dest.  Modelled when the range
+        lies entirely on one side of the partition and consists of named nodes / gaps between two resolved positions."""
+        first = self.resolve_iter(e.node)
+        last = self.resolve_iter(e.last)
+        dest = self.resolve_iter(e.dest)
+        if not isinstance(dest, Node):
+            self.unknown.append('range splice: destination %s not resolved to a node' % show(e.dest))
+            return
+        if first == 'P':
+            first = self.after_mark()
+        if not isinstance(first, Node):
+            self.unknown.append('range splice: first position %s not resolved' % show(e.node))
+            return
+        a = self.idx(first)
+        if last == 'P':
+            b = self.m
+        elif last == 'END':
+            b = len(self.items)
+        elif isinstance(last, Node):
+            b = self.idx(last)
+        else:
+            self.unknown.append('range splice: end position %s not resolved' % show(e.last))
+            return
+        if a is None or b is None or a > b:
+            self.unknown.append('range splice: positions out of order')
+            return
+        block = self.items[a:b]
+        if any(isinstance(x, Mark) for x in block) or dest in block:
+            self.problems.append(('SPLICE-FORM', 'range splice moves nodes across the free/used partition (or onto itself)', e.site))
+            self.unknown.append('range splice across the partition')
+            return
+        adjacent = self.idx(dest) == a - 1
+        del self.items[a:b]
+        j = self.idx(dest)
+        self.items[j:j] = block
+        if adjacent:
+            # rotating the block in front of the node that preceded it is the same permutation as moving that one node behind the block
+            self.moved.append(dest)
+        else:
+            self.moved += [x for x in block if isinstance(x, Node)]
+
     def _do_move(self, e):
+        if e.nargs == 4 and e.src == self.order and getattr(e, 'last', None) is not None:
+            self._do_move_range(e)
+            return
         if e.nargs != 3 or e.src != self.order:
             self.problems.append(('SPLICE-FORM', 'splice with %d arguments moves a range of nodes, not the single subject node' % e.nargs, e.site))
             self.unknown.append('range splice')
